@@ -32,6 +32,7 @@ func Run(r *core.Report, env *build.Env) {
 		{Pkg: "src/ddperror", Func: "VerifC07Render3", Bound: "excerpt renderer: all sources of 3 characters over the alphabet, every in-file range"},
 		{Pkg: "src/parser", Func: "VerifC07ParserFlag", Bound: "parser.errVal / warn: all prior flag values and both levels"},
 		{Pkg: "src/parser/typechecker", Func: "VerifC07SilentRestores", Bound: "Typechecker.EvaluateSilent: all prior flag values"},
+		{Pkg: "src/parser", Func: "VerifC07ImportDiagnostics", Bound: "two modules in memory: every subset of 4 library and 3 local declarations x 5 import forms x both orders; all diagnostics of the main module"},
 	}
 	if r.Tier == "thorough" {
 		hs = append(hs,
